@@ -76,11 +76,26 @@ def RemoveDb(db):
       pass
 
 
+def Txt(cps):
+  return ''.join(chr(c) for c in cps)
+
+
+def UserFlags(version):
+  """Flags given on the command line ({name: value}); spec/GroundModels.tla:
+  a version may carry flags: [{name, default, given}] (code points)."""
+  return {f['name']: Txt(f['given']) for f in version.get('flags', [])
+          if f['given']}
+
+
 def RenderVersion(version, paths):
-  """Logica text of a version; paths: alias -> SQLite file."""
-  prog = dict(version['prog'])
+  """Logica text of a version; paths: alias -> SQLite file.  A version with
+  flags is written from its `source` program (the literals still contain
+  ${flag}); `prog` is what the specification evaluates."""
+  prog = dict(version.get('source') or version['prog'])
   ann = ['@AttachDatabase("%s", "%s");' % (a, paths[a])
          for a in version['attached']]
+  for f in version.get('flags', []):
+    ann.append('@DefineFlag("%s", "%s");' % (f['name'], Txt(f['default'])))
   if version.get('dataset'):
     ann.append('@Dataset("%s");' % version['dataset'])
   for g in version['grounded']:
@@ -98,10 +113,10 @@ def RenderVersion(version, paths):
     ir.StrLit = saved
 
 
-def Compile(text, pred):
+def Compile(text, pred, user_flags=None):
   m = impl.Mods()
   rules = m['parse'].ParseFile(text)['rule']
-  program = m['universe'].LogicaProgram(rules, user_flags={})
+  program = m['universe'].LogicaProgram(rules, user_flags=user_flags or {})
   program.FormattedPredicateSql(pred)
   ex = program.execution
   return [ex.preamble] + list(ex.defines_and_exports) + [ex.main_predicate_sql]
@@ -121,7 +136,8 @@ def _Requery(statements):
     con.close()
 
 
-def RunPredicate(text, pred, use_cache=False, mode='script'):
+def RunPredicate(text, pred, use_cache=False, mode='script', user_flags=None,
+                 has_flags=False):
   """One `logica.py <file> run_to_csv <pred>` through the real runner (see the
   module doc).  {'status': 'ok', 'rows': [...], 'main_sql': ...} or
   {'status': 'reject'|'internal'|'sqlerror'|'output_differs', 'cls', 'msg'}."""
@@ -129,12 +145,13 @@ def RunPredicate(text, pred, use_cache=False, mode='script'):
   err = io.StringIO()
   with contextlib.redirect_stderr(err), contextlib.redirect_stdout(err):
     try:
-      key = (text, pred)
+      user_flags = user_flags or {}
+      key = (text, pred, tuple(sorted(user_flags.items())))
       if use_cache and key in _cache:
         statements = _cache[key]
         STATS['cached'] += 1
       else:
-        statements = Compile(text, pred)
+        statements = Compile(text, pred, user_flags)
         STATS['compiled'] += 1
         if use_cache:
           _cache[key] = statements
@@ -151,7 +168,9 @@ def RunPredicate(text, pred, use_cache=False, mode='script'):
         try:
           p = subprocess.run(
               [sys.executable, os.path.join(common.REPO, 'logica.py'), path,
-               'run_to_csv', pred], capture_output=True, timeout=600)
+               'run_to_csv', pred] +
+              ['--%s=%s' % kv for kv in sorted(user_flags.items())],
+              capture_output=True, timeout=600)
         finally:
           os.unlink(path)
         STATS['main'] = STATS.get('main', 0) + 1
@@ -182,6 +201,13 @@ def RunPredicate(text, pred, use_cache=False, mode='script'):
       return {'status': 'sqlerror', 'stage': 'execute',
               'cls': type(e).__name__, 'msg': impl.ExcText(e),
               'statements': statements}
+  if has_flags and any('${' in st for st in statements):
+    # no flag reference may survive in a statement the CLI path executes
+    bad = [st for st in statements if '${' in st][0]
+    i = bad.index('${')
+    return {'status': 'unsubstituted_flag', 'stage': 'statements',
+            'cls': 'UnsubstitutedFlag', 'msg': bad[max(0, i - 80):i + 80],
+            'statements': statements}
   if got != want:
     return {'status': 'output_differs', 'stage': 'output',
             'cls': 'OutputDiffers',
@@ -267,7 +293,9 @@ def Perform(versions, steps, use_cache=False, main_every=0):
       if a == 'Run':
         nrun += 1
         mode = 'main' if main_every and nrun % main_every == 0 else 'script'
-        res = RunPredicate(texts[ver - 1], s['p'], use_cache, mode)
+        res = RunPredicate(texts[ver - 1], s['p'], use_cache, mode,
+                           UserFlags(versions[ver - 1]),
+                           bool(versions[ver - 1].get('flags')))
         ev['status'] = res['status']
         info['mode'] = mode
         if res['status'] == 'ok':
